@@ -12,6 +12,8 @@ mod c06_vals;
 pub mod c07;
 pub mod c08;
 pub mod c09;
+pub mod c10;
+mod c10_model;
 pub mod c11;
 mod c11_data;
 pub mod c12;
@@ -35,5 +37,5 @@ pub mod selftest;
 pub mod sqlcase;
 
 pub fn all() -> Vec<PropDef> {
-    vec![selftest::def(), c01::def(), c02::def(), c03::def(), c05::def(), c06::def(), c07::def(), c08::def(), c09::def(), c11::def(), c12::def(), c13::def(), c14::def(), c15::def(), c16::def(), c17::def(), c18::def(), c19::def(), c20::def()]
+    vec![selftest::def(), c01::def(), c02::def(), c03::def(), c05::def(), c06::def(), c07::def(), c08::def(), c09::def(), c10::def(), c11::def(), c12::def(), c13::def(), c14::def(), c15::def(), c16::def(), c17::def(), c18::def(), c19::def(), c20::def()]
 }
